@@ -137,6 +137,7 @@ class Search:
         self.found_block = None  # CFG form: blocks dominated by these are the outcomes
         self.none_block = None
         self.call = None         # iterator form: the position / find_map call term
+        self.loop_next = None    # for-loop form: the next() term of the enumerated windows
 
 
 def search_of(F, A, inst, idx_term):
@@ -204,8 +205,97 @@ def search_of(F, A, inst, idx_term):
         return s
     if idx_term[0] == "opq" and len(idx_term) > 3 and idx_term[1] == "phi" and not idx_term[3]:
         return counting_search(F, A, idx_term, s)
+    if idx_term[0] == "fld" and idx_term[2] == 0 and idx_term[1][0] == "fld" and idx_term[1][2] == 0 and idx_term[1][1][0] == "dc" and \
+            idx_term[1][1][2] == 1 and idx_term[1][1][1][0] == "call" and "Iterator>::next" in str(idx_term[1][1][1][1]):
+        return enum_loop_search(F, A, idx_term, s)
     s.how = "index term %s" % G.show(idx_term)[:100]
     return s
+
+
+def enum_loop_search(F, A, idx_term, s):
+    """for (i, w) in buffer[..W].windows(k).enumerate() { if hit(w) { <leave with i> } } <none>: one loop around one `next()` of the
+    enumerated windows (std contract: the items are (0, w0), (1, w1), .. with w_i = scanned[i..i+k], i + k <= len), left only by
+    `next()` answering None and by the hit test succeeding"""
+    b = A.body
+    NX = idx_term[1][1][1]
+    s.kind = "for (i, w) in windows(k).enumerate(), leaving at the first hit"
+    site = [(bb, t) for bb, t in b.calls() if N(A.tb.call_value(t, bb)) == NX]
+    if len(site) != 1:
+        s.how = "%d calls evaluate to the next() term" % len(site)
+        return s
+    nbb, nt = site[0]
+    loops = [(t, h) for (t, h) in b.back_edges() if nbb in b.loop_blocks(h, t)]
+    heads = {h for (_, h) in loops}
+    if len(heads) != 1:
+        s.how = "next() lies in %d loops" % len(heads)
+        return s
+    head = next(iter(heads))
+    blocks = set()
+    for (t, h) in loops:
+        blocks |= b.loop_blocks(h, t)
+    nexts = [bb for bb, t in b.calls() if bb in blocks and "Iterator>::next" in str(M_callee(t))]
+    if len(nexts) != 1:
+        s.how = "%d next() calls in the loop" % len(nexts)
+        return s
+    itr = NX[2][0]
+    itr = itr[1] if itr[0] == "ref" else itr
+    itr = an.loop_entry_value(A, itr, head, blocks)
+    for _ in range(3):
+        if itr[0] == "call" and len(itr[2]) == 1 and "IntoIterator" in str(itr[1]):
+            itr = itr[2][0]
+    if not (itr[0] == "call" and ("Iterator>::enumerate" in str(itr[1]) or cn(itr[1]).endswith("Iterator::enumerate")) and len(itr[2]) == 1):
+        s.how = "the loop walks %s, not an enumerate()" % G.show(itr)[:80]
+        return s
+    w = call(itr[2][0], "core::slice::windows")
+    if w is None:
+        s.how = "enumerate() of %s, not of slice::windows" % G.show(itr[2][0])[:80]
+        return s
+    nm = SL.Norm([], A)
+    scanned = nm.unref(nm.norm(w[0]))
+    size = nm.norm(w[1])
+    B, lo, hi = SL.as_sub(scanned)
+    s.k = size[1] if size[0] == "c" else None
+    s.base_ok = B == BUF and lo == ("c", 0)
+    s.W = hi
+    # ways out of the loop that can return
+    exits = []
+    for x in sorted(blocks):
+        for (y, lab) in b.succ[x]:
+            if y not in blocks and not b.diverges(y):
+                exits.append((x, y, lab))
+    none_e, found_e = [], []
+    win = ("fld", ("fld", ("dc", NX, 1), 0), 1)
+    how = []
+    for (x, y, lab) in exits:
+        c = A.g.edge_condition(x, y, lab)
+        cn_ = N(c) if c is not None else None
+        if cn_ is not None and cn_[0] == "cmp" and cn_[2] == ("discr", NX) and ((cn_[1] == "Eq" and cn_[3] == ("c", 0)) or (cn_[1] == "Ne" and cn_[3] == ("c", 1))):
+            none_e.append((x, y, lab))
+            continue
+        fs = SL.norm_facts([N(f) for f in A.g.edge_facts(x, y, lab)], A)
+        hit = False
+        for f in fs:
+            if window_pred(f, win) or window_pred(f, ("deref", win)):
+                hit = True
+            for z in subterms(f):
+                if z and z[0] == "call" and "PartialEq<" in str(z[1]) and (window_pred(z, win) or window_pred(z, ("deref", win))):
+                    hit = True
+        how.append([G.show(f)[:100] for f in fs])
+        if hit:
+            found_e.append((x, y, lab))
+    if len(exits) != 2 or len(none_e) != 1 or len(found_e) != 1:
+        s.how = "the loop is left by %s (expected: next() == None, and the hit test on the window): %s" % ([(x, y) for (x, y, _) in exits], how)
+        return s
+    s.none_block, s.found_block = none_e[0][1], found_e[0][1]
+    s.pred_ok = True
+    s.loop_next = NX
+    s.how = "items of enumerate(windows(%s)) over buffer[..%s]; left on None or on the hit %s" % (s.k, G.show(s.W)[:60], how[:1])
+    return s
+
+
+def M_callee(t):
+    from .. import mir as M_
+    return (M_.callee_path(t) or "") + str(M_.callee_key(t))
 
 
 def counting_search(F, A, phi, s):
@@ -355,8 +445,33 @@ def run(ctx):
             from .. import panic as P_
             if hasattr(P_, "_sites_cache"):
                 P_._sites_cache.clear()
+    if sr.loop_next is not None and sr.pred_ok and ok_w:
+        # for-loop form: the item next() answered is (i, w) of enumerate(windows(k)) over buffer[..W] (checked above), so
+        # i + k <= min(len, 8192) wherever that answer is Some.  PANIC's discharges may use it.
+        raw_nx = None
+        for bb_, t_ in b.calls():
+            v_ = A.tb.call_value(t_, bb_)
+            if N(v_) == sr.loop_next:
+                raw_nx = v_
+        raw_idx = next((x for x in subterms(oks[0].payload) if isinstance(x, tuple) and x and x[0] == "fld" and N(x) == IDX), None)
+        if raw_nx is not None and raw_idx is not None:
+            def hook2(dt, is_some, raw_nx=raw_nx, raw_idx=raw_idx):
+                if is_some and dt[1] == raw_nx:
+                    raw_buf = ("arg", 1, b.local_ty(1))
+                    return [("cmp", "Le", ("bin", "Add", raw_idx, T.C(sr.k), "usize"), ("min", ("len", raw_buf), T.C(WINDOW)))]
+                return []
+            A.g.add_fact_hook(hook2)
+            from .. import panic as P_
+            if hasattr(P_, "_sites_cache"):
+                P_._sites_cache.clear()
     # ---- P
     def allow(s_):
+        if sr.loop_next is not None and s_.kind == "maypanic" and s_.what == "Result::unwrap" and ok_w and sr.pred_ok and sr.k == 4 and len(s_.terms) == 1:
+            t_ = N(s_.terms[0])
+            win_ = ("fld", ("fld", ("dc", sr.loop_next, 1), 0), 1)
+            if t_[0] == "call" and "TryFrom" in str(t_[1]) and len(t_[2]) == 1 and SL.Norm([], A).unref(t_[2][0]) in (win_, ("deref", win_)):
+                return ("the converted slice is the window of an item of windows(4).enumerate() (W:window), which has exactly 4 bytes "
+                        "(std contract): <[u8; 4]>::try_from cannot fail")
         if "{closure#" in s_.key() and s_.kind == "maypanic" and s_.what == "Result::unwrap" and ok_w and sr.pred_ok and sr.call is not None:
             return ("the closure is passed only to position() over windows(4), whose items have exactly 4 bytes (std contract): "
                     "<[u8; 4]>::try_from cannot fail")
